@@ -948,7 +948,10 @@ async fn fail_all_pending(inner: &std::sync::Weak<AsyncClientInner>, err: RepeEr
 
     {
         let mut writer = inner_ref.writer.lock().await;
-        let _ = writer.shutdown().await;
+        // Straight on the socket half: `BufWriter::shutdown` would first try to
+        // flush whatever an abandoned write left in the buffer, and on a peer
+        // that stopped reading that flush never ends.
+        let _ = writer.get_mut().shutdown().await;
     }
 
     let waiters = {
